@@ -17,7 +17,7 @@ RULE = ('programs (facts, rules with cut / if-then-else / negation, atoms with e
         'newline, atoms containing every other line separator (bare CR, CR LF, VT, FF, FS/GS/RS, NEL, LS, PS), non-ASCII atoms, lists and anonymous variables, empty and comment-only files, a syntax error, a '
         'non-callable goal, a clause too large for Python, an unsupported term) x ALL 16 combinations of -d '
         '--debug-parser --debug-generator --debug-filename x {stdout, -o file} x {file argument, - with the text on '
-        'standard input} x {one source, two sources, a second source that does not compile}, each run as a real '
+        'standard input} x {one source, two sources, a second source that does not compile, a first source that does not compile followed by this one}, each run as a real '
         'subprocess of `python -m yldprolog.compiler`. Checked: with the debug options off the output equals the '
         'concatenation of compile_prolog_from_file of the sources in order; the exit status is non-zero iff a source does '
         'not compile, and for a syntax error stderr names the file and line:column; for every flag combination the '
@@ -86,7 +86,7 @@ def configurations(progs):
         for flags in itertools.product([False, True], repeat=4):
             for out in ('stdout', 'file'):
                 for inp in ('file', 'stdin'):
-                    for multi in ('one', 'two', 'second-fails'):
+                    for multi in ('one', 'two', 'second-fails', 'first-fails'):
                         yield name, flags, out, inp, multi
 
 
@@ -97,6 +97,9 @@ def check_config(tmp, table, cfg, cache):
     sources = [name]
     if multi == 'two':
         sources.append('facts')
+    elif multi == 'first-fails':
+        # a source that does not compile FOLLOWED by this one: the status is non-zero whatever comes later
+        sources = ['syntax-error', name]
     elif multi == 'second-fails':
         sources.append('syntax-error')
     fl = [f for f, on in zip(FLAGS, flags) if on]
